@@ -93,6 +93,18 @@ def pretty_freprnode(value, ctx, trailing_comment=None):
     return _doc(value, ctx, trailing_comment)
 
 
+class FObjNode(FNode):
+    """its printer is a callable OBJECT (no __qualname__ of its own), not a function"""
+
+
+class ObjPrinter:
+    def __call__(self, value, ctx, trailing_comment=None):
+        return _doc(value, ctx, trailing_comment)
+
+
+register_pretty(FObjNode)(ObjPrinter())
+
+
 class FLazyBase(FNode):
     """printer registered by NAME for this base class; instances are of the subclass FLazySub, so the printer is
     promoted through the superclass walk on first use"""
